@@ -557,36 +557,7 @@ type c09Case struct {
 	// holding its own cfg.json); 4 "~/cfg.json" with HOME unset, 5 with HOME="" (no home directory: Parse must fail);
 	// 6 relative to the working directory
 	cfgHome int
-	// the document a carrier holds: 0 = the generated JSON object; 1 empty; 2 only whitespace; 3 not JSON at all (no field is
-	// named in it); 4 `{}`; 5 `null` (4, 5: valid JSON that mentions nothing). For CFG_CONFIG_B64 additionally 6 = the variable's text is
-	// not base64. With 1..3 (6) an error from Parse is acceptable; a Parse that returns nil is judged with that carrier
-	// mentioning nothing (the file named by -config stays THE JSON source: CFG_CONFIG_B64 must not be consulted).
-	fileDoc, b64Doc int
 }
-
-var c09BlankDocs = []string{" ", "\n", " \t\r\n ", "\n\n\n"}
-var c09JunkDocs = []string{"{", "]", "{\"", "nul", "\x00", "{}{", "{} x", "// no json\n", "\xef\xbb\xbf", "[1,"}
-
-// c09Doc: the bytes of a carrier's document for doc states 1..5
-func c09Doc(r *hk.Rng, doc int) []byte {
-	switch doc {
-	case 1:
-		return []byte{}
-	case 2:
-		return []byte(c09BlankDocs[r.Intn(len(c09BlankDocs))])
-	case 3:
-		return []byte(c09JunkDocs[r.Intn(len(c09JunkDocs))])
-	case 4:
-		return []byte([]string{"{}", " {} \n", "{ }"}[r.Intn(3)])
-	case 5:
-		return []byte([]string{"null", "null\n", " null"}[r.Intn(3)])
-	}
-	panic("doc")
-}
-
-var c09DocNames = []string{"json", "empty", "blank", "junk", "{}", "null", "not-base64"}
-
-func c09DocBad(doc int) bool { return doc == 1 || doc == 2 || doc == 3 || doc == 6 }
 
 // c09Session: one struct + FlagSet that receives several Parse calls
 type c09Session struct {
@@ -694,11 +665,7 @@ func c09Run(e *hk.Env, g *c09Gen, c *c09Case, dir string, sess *c09Session) (lin
 	}
 	os.Remove(cfgPath)
 	if c.useFile && !c.fileGone {
-		doc := mkJSON(func(x c09Choice) *string { return x.jfile }, func(x c09Choice) bool { return x.nullFile })
-		if c.fileDoc != 0 {
-			doc = c09Doc(r, c.fileDoc)
-		}
-		if err := os.WriteFile(cfgPath, doc, 0o644); err != nil {
+		if err := os.WriteFile(cfgPath, mkJSON(func(x c09Choice) *string { return x.jfile }, func(x c09Choice) bool { return x.nullFile }), 0o644); err != nil {
 			panic(err)
 		}
 	}
@@ -739,15 +706,7 @@ func c09Run(e *hk.Env, g *c09Gen, c *c09Case, dir string, sess *c09Session) (lin
 		}
 	}
 	if c.useB64 {
-		doc := mkJSON(func(x c09Choice) *string { return x.jb64 }, func(x c09Choice) bool { return x.nullB64 })
-		if c.b64Doc != 0 && c.b64Doc != 6 {
-			doc = c09Doc(r, c.b64Doc)
-		}
-		txt := base64.StdEncoding.EncodeToString(doc)
-		if c.b64Doc == 6 {
-			txt = []string{"%%%%", "e30", "e30==", " e30="}[r.Intn(4)]
-		}
-		setenv("CFG_CONFIG_B64", txt)
+		setenv("CFG_CONFIG_B64", base64.StdEncoding.EncodeToString(mkJSON(func(x c09Choice) *string { return x.jb64 }, func(x c09Choice) bool { return x.nullB64 })))
 	}
 	if c.decoy {
 		setenv("CFG_CONFIG", filepath.Join(dir, "decoy"+string(rune('A'+c.typ))+".json"))
@@ -828,12 +787,7 @@ func c09Run(e *hk.Env, g *c09Gen, c *c09Case, dir string, sess *c09Session) (lin
 	if ok {
 		help = map[bool]string{false: "0", true: "1"}[fs.ShowUsage()]
 	}
-	b64col := map[bool]string{false: "0", true: "1"}[c.useB64]
-	fileThere := c.useFile && !c.fileGone && c.cfgHome != 4 && c.cfgHome != 5
-	if (fileThere && c09DocBad(c.fileDoc)) || (!c.useFile && c.useB64 && c09DocBad(c.b64Doc)) {
-		b64col += "!" // the document of the effective carrier is empty / blank / not JSON
-	}
-	line = []string{"E", strconv.Itoa(strconv.IntSize), strconv.Itoa(callno), unchanged, joinHex(vec), cf, b64col, map[bool]string{false: "0", true: "1"}[ok], rest, help, strconv.Itoa(len(c.fields))}
+	line = []string{"E", strconv.Itoa(strconv.IntSize), strconv.Itoa(callno), unchanged, joinHex(vec), cf, map[bool]string{false: "0", true: "1"}[c.useB64], map[bool]string{false: "0", true: "1"}[ok], rest, help, strconv.Itoa(len(c.fields))}
 	if c.useFile && (c.fileGone || c.cfgHome == 4 || c.cfgHome == 5) {
 		line[5] = hk.Hxs(cliPath + ".missing") // the model's file oracle knows no such file
 		// (the command line carries cfgPath, which does not exist either)
@@ -878,10 +832,10 @@ func c09Run(e *hk.Env, g *c09Gen, c *c09Case, dir string, sess *c09Session) (lin
 			or = strings.Join(pairs, ",")
 		}
 		jf, jb := "~", "~"
-		if fileThere && c.fileDoc == 0 {
+		if c.useFile && !c.fileGone && c.cfgHome != 4 && c.cfgHome != 5 {
 			jf = optHex(c.ch[i].jfile)
 		}
-		if c.useB64 && c.b64Doc == 0 {
+		if c.useB64 {
 			jb = optHex(c.ch[i].jb64)
 		}
 		line = append(line, f.kind, hk.Hxs(group), hk.Hxs(sf.Name), hk.Hxs(sf.Tag.Get("flag")), hk.Hxs(f.name), hk.Hxs(f.def), bound,
@@ -994,7 +948,6 @@ func runC09(e *hk.Env) error {
 	kindCombo := map[string]map[string]int{}
 	carrierHist := map[string]int{}
 	spellHist := map[string]int{}
-	docHist := map[string]int{}
 	distinct := map[string]struct{}{}
 	prefilled := 0
 	var sess *c09Session
@@ -1036,16 +989,13 @@ func runC09(e *hk.Env) error {
 			car += "+decoy"
 		}
 		carrierHist[car]++
-		if c.fileDoc != 0 || c.b64Doc != 0 {
-			docHist[fmt.Sprintf("%s file=%s b64=%s ok=%v", strings.TrimSuffix(car, "+decoy"), c09DocNames[c.fileDoc], c09DocNames[c.b64Doc], ok)]++
-		}
 		if c.useFile {
 			spellHist[[]string{"absolute", "~/ HOME=home1", "~/ HOME=home2", "~/ HOME=home3", "~/ HOME unset", "~/ HOME empty", "relative"}[c.cfgHome]]++
 		}
 		for i, f := range c.fields {
 			combo := ""
 			for _, b := range []bool{c.ch[i].cli != nil, c.ch[i].env != nil,
-				(c.useFile && !c.fileGone && c.fileDoc == 0 && c.ch[i].jfile != nil) || (!c.useFile && c.useB64 && c.b64Doc == 0 && c.ch[i].jb64 != nil), f.def != ""} {
+				(c.useFile && !c.fileGone && c.ch[i].jfile != nil) || (!c.useFile && c.useB64 && c.ch[i].jb64 != nil), f.def != ""} {
 				if b {
 					combo += "1"
 				} else {
@@ -1153,7 +1103,7 @@ func runC09(e *hk.Env) error {
 		nf := len(allFields[tb])
 		for fi := 0; fi < nf; fi++ {
 			for car := 0; car < 3; car++ {
-				for shape := 0; shape < 6; shape++ {
+				for shape := 0; shape < 5; shape++ {
 					c := mk(tb)
 					carriers(c, car)
 					c.ch = make([]c09Choice, nf)
@@ -1184,19 +1134,6 @@ func runC09(e *hk.Env) error {
 					case 4: // cli explicitly empty
 						ch.cli = []string{""}
 						offer("")
-					case 5: // repeated flag whose LAST occurrence spells the default (canonical or tag text); env = default for the rest
-						first := g.text(f, false)
-						last := dtext
-						if r.Bool() {
-							last = f.def
-						}
-						if r.Chance(70) {
-							ch.cli = []string{first, last}
-							offer(first)
-						} else {
-							ch.env = &last
-						}
-						offer(last)
 					}
 					// make sure JSON says something else than the default
 					for k := 0; k < 20; k++ {
@@ -1217,61 +1154,6 @@ func runC09(e *hk.Env) error {
 		}
 	}
 	e.Stats["targeted_cases"] = total - t1
-	// (2b) carriers whose document is not a JSON object naming fields: empty, blank, not JSON, `{}`, `null` (and a CFG_CONFIG_B64
-	// that is not base64) x which carriers exist; the OTHER carrier holds a real JSON object assigning non-default values to
-	// many fields, most of them mentioned by neither cli nor env. The file named by -config is the JSON source whenever it is
-	// given; the unchanged library fails on 1..3, a Parse that returns nil must not have taken anything from the other carrier.
-	t1b := total
-	docRounds := 2
-	if e.Thorough() {
-		docRounds = 12
-	}
-	for round := 0; round < docRounds; round++ {
-		for tb := 0; tb < len(allFields); tb++ {
-			for _, sh := range [][3]int{ // {carriers (0 file, 1 b64, 2 both), fileDoc, b64Doc}
-				{2, 1, 0}, {2, 2, 0}, {2, 3, 0}, {2, 4, 0}, {2, 5, 0}, // both carriers, the file is the odd one
-				{2, 0, 1}, {2, 0, 3}, {2, 0, 6}, {2, 1, 1}, {2, 4, 3}, {2, 2, 6}, // both carriers, CFG_CONFIG_B64 odd: never looked at
-				{0, 1, 0}, {0, 2, 0}, {0, 3, 0}, {0, 4, 0}, {0, 5, 0},
-				{1, 0, 1}, {1, 0, 2}, {1, 0, 3}, {1, 0, 4}, {1, 0, 5}, {1, 0, 6},
-			} {
-				nf := len(allFields[tb])
-				c := mk(tb)
-				carriers(c, sh[0])
-				if c.cfgHome == 4 || c.cfgHome == 5 {
-					c.cfgHome = 0
-				}
-				c.fileDoc, c.b64Doc = sh[1], sh[2]
-				c.ch = make([]c09Choice, nf)
-				for i, f := range c.fields {
-					hi := 15
-					if round == 0 {
-						hi = 0 // only JSON mentions anything: the smallest failing input comes first
-					}
-					ch := g.choose(f, r.Chance(hi), r.Chance(hi), c.useFile && c.fileDoc == 0 && r.Chance(80), c.useB64 && c.b64Doc == 0 && r.Chance(80))
-					if c.fileDoc != 0 {
-						ch.jfile, ch.nullFile = nil, false
-					}
-					if c.b64Doc != 0 {
-						ch.jb64, ch.nullB64 = nil, false
-					}
-					dcanon, _ := c09Parse(f.kind, f.def)
-					for k := 0; k < 20; k++ { // the real JSON object says something else than the default
-						if ch.jfile != nil && *ch.jfile == dcanon {
-							v := g.jsonCanon(f)
-							ch.jfile = &v
-						}
-						if ch.jb64 != nil && *ch.jb64 == dcanon {
-							v := g.jsonCanon(f)
-							ch.jb64 = &v
-						}
-					}
-					c.ch[i] = ch
-				}
-				emit(c)
-			}
-		}
-	}
-	e.Stats["carrier_document_cases"] = total - t1b
 	// (3) random across fields
 	for i := 0; i < nRandom; i++ {
 		c := mk([]int{0, 0, 0, 1, 2, 3, 4, 5, 3, 4, 5}[r.Intn(11)])
@@ -1348,7 +1230,6 @@ func runC09(e *hk.Env) error {
 	e.Stats["per_kind_combinations"] = kindCombo
 	e.Stats["carriers"] = carrierHist
 	e.Stats["config_path_spellings"] = spellHist
-	e.Stats["carrier_documents(non-object)"] = docHist
 	e.Stats["fields_per_case"] = map[string]int{"typeA": len(c09FieldsA), "typeB": len(c09FieldsB), "typeC": len(c09FieldsC),
 		"typeD1": len(c09FieldsD1), "typeD2": len(c09FieldsD2), "typeD3": len(c09FieldsD3)}
 	e.Stats["prefilled_structs"] = prefilled
